@@ -747,3 +747,24 @@ theorem encAll_some_all {ps : List Payload} {e : B} (h : encAll ps = some e) :
         · exact ih hqs p hp
 
 end V2
+
+
+namespace V2
+
+/-- `build` never indexes out of range: every reachable state has written (or is about to
+write) the 16-byte fixed part. -/
+theorem buildP_eq {b vc afp addr len bd} (h : Shape b vc afp addr len bd) : b.buildP = .val b.build := by
+  obtain ⟨b1, l0, hw, -, hh⟩ := writeHeader_shape h
+  simp only [Builder.buildP, hw, hh, Option.getD_some, hdrOf_length, minLen]
+  rw [if_neg (by omega)]
+
+/-- … in particular after any call history from either constructor. -/
+theorem buildP_reachable (b0 : Builder) (hb : (∃ vc afp, b0 = Builder.new vc afp) ∨ (∃ vc t a, b0 = Builder.withAddresses vc t a))
+    (ops : List Op) (b : Builder) (hr : Builder.runFrom b0 ops = some b) : b.buildP = .val b.build := by
+  rcases hb with ⟨vc, afp, rfl⟩ | ⟨vc, t, a, rfl⟩
+  · obtain ⟨e, -, hsh⟩ := runFrom_shape (shape_new vc afp) ops b hr
+    exact buildP_eq hsh
+  · obtain ⟨e, -, hsh⟩ := runFrom_shape (shape_withAddresses vc t a) ops b hr
+    exact buildP_eq hsh
+
+end V2
